@@ -6,7 +6,8 @@
     [iso g h] = some map injective on the nodes of g relabels g into h up to [geq]. *)
 From Coq Require Import List NArith ZArith Bool Arith Permutation.
 From SK Require Import lib.IRSortKeys lib.IRCore lib.IRSearch model.C18_Model proof.C18_Order proof.C18_Spec
-  proof.C18_Graph proof.C18_Canon proof.C18_Equiv proof.C18_Label proof.C18_Aut proof.C18_Invariant proof.C18_Wf proof.C18_Count proof.C18_View proof.C18_Vf2 proof.C18_Vf2Count proof.C18_Examples.
+  proof.C18_Graph proof.C18_Canon proof.C18_Equiv proof.C18_Label proof.C18_Aut proof.C18_Invariant proof.C18_Wf proof.C18_Count proof.C18_View proof.C18_Vf2 proof.C18_Vf2Count proof.C18_Refine proof.C18_Examples.
+From SK Require Import lib.C18_IRValid.
 From SK Require lib.IRInst.
 Import ListNotations.
 
@@ -151,3 +152,13 @@ Theorem C18_vf2_count : forall (g : vgraph) (lab p : list N) (vf2_count : nat),
   vf2_count = length (min_leaves g).
 Proof. exact vf2_count. Qed.
 Print Assumptions C18_vf2_count.
+
+(** Refinement fuel sufficiency: on an ordered partition of the nodes ([vpart]: the cells are non-empty and their
+    concatenation is a permutation of the node list) the model's refinement returns a partition that one further round of
+    splitting leaves unchanged -- the exit condition of the [while changed] loop of CRNCanonicalizer._refine. *)
+Theorem C18_refine_stable : forall (g : vgraph) (P : partition),
+  vpart (node_ids g) P ->
+  refine_step IRInst.lexleb (sig g) (refine IRInst.lexleb (sig g) (S (length (vnodes g))) P)
+  = refine IRInst.lexleb (sig g) (S (length (vnodes g))) P.
+Proof. exact model_refine_stable. Qed.
+Print Assumptions C18_refine_stable.
